@@ -1,39 +1,142 @@
 import PwVerif.Model.Cache
+import PwVerif.Model.CacheTree
 import PwVerif.Model.Proto
 open PwVerif.Cache PwVerif.Proto
+open PwVerif.CacheTree (T Src K KidK KCfg Sem St)
+
+/-! Driver for C05.
+Node level: `beh v:kind …`, then `set v | run | submit | complete | clearfailed | cancel | drop | resetrunning`;
+every op prints `R …` (the tree as it is) and `S …` (proposed discipline), cached and uncached twin each.
+Composite level: `tleaf | tcomp | tsetin | tremove | treplace` at a path, `trun` prints, for the current key (`Tcur`)
+and the proposed key (`Tprop`): hit or miss, what the cached composite and its cache-free twin return, and the key. -/
 
 structure DSt where
-  bad : List Nat
-  pc : N   -- pinned, cached
-  pu : N   -- pinned, uncached
-  rc : N   -- repaired, cached
-  ru : N   -- repaired, uncached
+  beh : List (Nat × Outcome)
+  rc : N   -- current tree, cached
+  ru : N   -- current tree, uncached
+  sc : N   -- proposed, cached
+  su : N   -- proposed, uncached
+  cur : St String
+  prop : St String
 
-def DSt.init : DSt := { bad := [], pc := N.init, pu := N.init, rc := N.init, ru := N.init }
+def St0 : St String := { vals := [], kids := [], outs := [], cache := none }
+def DSt.init : DSt :=
+  { beh := [], rc := N.init, ru := N.init, sc := N.init, su := N.init, cur := St0, prop := St0 }
 
 def showR : R → String
   | .ret none => "ret:ND"
   | .ret (some v) => s!"ret:F({v})"
   | .future => "future" | .readiness => "readiness" | .raised => "raised" | .locked => "locked" | .unit => "unit"
+  | .interrupted => "interrupted" | .fatal => "fatal" | .procraised => "procraised" | .escaped => "escaped"
 
 def showVis (n : N) : String :=
   let o := match n.out with | none => "ND" | some v => s!"F({v})"
   s!"{n.inp},{o},{n.running},{n.failed}"
 
 def apply (s : DSt) (op : Op) : DSt × List String :=
-  let bad := fun v => s.bad.contains v
-  let (pc, r1) := step Cfg.pinned bad true s.pc op
-  let (pu, r2) := step Cfg.pinned bad false s.pu op
-  let (rc, r3) := step Cfg.repaired bad true s.rc op
-  let (ru, r4) := step Cfg.repaired bad false s.ru op
-  ({ s with pc, pu, rc, ru },
-   [s!"P c={showR r1} u={showR r2} vc={showVis pc} vu={showVis pu}",
-    s!"R c={showR r3} u={showR r4} vc={showVis rc} vu={showVis ru}"])
+  let beh := fun v => (s.beh.lookup v).getD .ok
+  let (rc, r1) := step Cfg.repaired beh true s.rc op
+  let (ru, r2) := step Cfg.repaired beh false s.ru op
+  let (sc, r3) := step Cfg.proposed beh true s.sc op
+  let (su, r4) := step Cfg.proposed beh false s.su op
+  ({ s with rc, ru, sc, su },
+   [s!"R c={showR r1} u={showR r2} vc={showVis rc} vu={showVis ru} q={rc.jobs.length}/{ru.jobs.length}",
+    s!"S c={showR r3} u={showR r4} vc={showVis sc} vu={showVis su} q={sc.jobs.length}/{su.jobs.length}"])
+
+def parseBeh (w : String) : Option (Nat × Outcome) :=
+  match w.splitOn ":" with
+  | [v, k] =>
+    match v.toNat?, k with
+    | some v, "ok" => some (v, .ok)
+    | some v, "exc" => some (v, .exc)
+    | some v, "kbd" => some (v, .kbd)
+    | some v, "fatal" => some (v, .fatal)
+    | some v, "procbad" => some (v, .procbad)
+    | _, _ => none
+  | _ => none
+
+/-! ### composite level -/
+
+def strSem : Sem String :=
+  { F := fun c args => s!"f{c}({",".intercalate args})",
+    atom := fun v => if v == 0 then "d" else s!"a{v}",
+    nd := "ND" }
+
+def FUEL : Nat := 64
+
+def parseSrc (w : String) : Option Src :=
+  let rest := (w.drop 1).toString
+  match w.take 1 |>.toString, rest.toNat? with
+  | "v", some n => some (.val n)
+  | "c", some n => some (.conn n)
+  | "l", some n => some (.link n)
+  | _, _ => none
+
+def parsePath (w : String) : Option (List Nat) :=
+  if w == "-" then some [] else (w.splitOn ".").mapM String.toNat?
+
+def showSrc : Src → String
+  | .val v => s!"v{v}"
+  | .conn s => s!"c{s}"
+  | .link i => s!"l{i}"
+
+partial def showK : K → String
+  | .mk kids subs =>
+    let rec go : List KidK → List K → List String
+      | [], _ => []
+      | k :: ks, subs =>
+        let cls := match k.cls with | none => "-" | some c => toString c
+        let ins := ",".intercalate (k.ins.map showSrc)
+        if k.isComp then
+          match subs with
+          | sub :: rest => s!"{k.label}:{cls}:C{k.ret}:({ins})[{showK sub}]" :: go ks rest
+          | [] => s!"{k.label}:{cls}:C{k.ret}:({ins})[?]" :: go ks []
+        else s!"{k.label}:{cls}:L:({ins})" :: go ks subs
+    "|".intercalate (go kids subs)
+
+def showOuts (o : List (Nat × String)) : String :=
+  ";".intercalate (o.map (fun p => s!"{p.1}={p.2}"))
+
+def hasKid (l : Nat) (kids : List (Nat × T)) : Bool := (PwVerif.CacheTree.lookup l kids).isSome
+
+/-- does the composite at `path` exist -/
+def pathOk : List Nat → List (Nat × T) → Bool
+  | [], _ => true
+  | l :: p, kids =>
+    match PwVerif.CacheTree.lookup l kids with
+    | some (.comp _ _ ks) => pathOk p ks
+    | _ => false
+
+def kidsAt : List Nat → List (Nat × T) → List (Nat × T)
+  | [], kids => kids
+  | l :: p, kids =>
+    match PwVerif.CacheTree.lookup l kids with
+    | some (.comp _ _ ks) => kidsAt p ks
+    | _ => []
+
+/-- an edit of the children of the composite at `path`; `structural` = made through add/remove/replace_child -/
+def editTree (s : DSt) (path : List Nat) (structural : Bool) (f : List (Nat × T) → List (Nat × T)) : DSt :=
+  let g := fun (st : St String) =>
+    let kids := PwVerif.CacheTree.atPath f path st.kids
+    let op : PwVerif.CacheTree.Op String := if structural && path.isEmpty then .structural kids else .edit kids
+    (PwVerif.CacheTree.step strSem KCfg.current FUEL true st op).1
+  { s with cur := g s.cur, prop := g s.prop }
+
+def treeRun (s : DSt) : DSt × List String :=
+  let one := fun (c : KCfg) (st : St String) (tag : String) =>
+    let h := PwVerif.CacheTree.hit c st
+    let r := PwVerif.CacheTree.step strSem c FUEL true st .run
+    let u := PwVerif.CacheTree.step strSem c FUEL false st .run
+    (r.1, [s!"{tag} hit={h} c={showOuts (r.2.getD [])} u={showOuts (u.2.getD [])}",
+           s!"{tag}key {showK (PwVerif.CacheTree.key c st.kids)}"])
+  let (cur, l1) := one KCfg.current s.cur "Tcur"
+  let (prop, l2) := one KCfg.proposed s.prop "Tprop"
+  ({ s with cur, prop }, l1 ++ l2)
 
 def step' (s : DSt) (ws : List String) : DSt × List String :=
   match ws with
-  | "bad" :: vs => match nats vs with
-    | some vs => ({ s with bad := vs }, [])
+  | "beh" :: vs => match vs.mapM parseBeh with
+    | some vs => ({ s with beh := vs }, [])
     | none => (s, ["bad-op"])
   | ["set", v] => match v.toNat? with
     | some v => apply s (.set v)
@@ -42,6 +145,49 @@ def step' (s : DSt) (ws : List String) : DSt × List String :=
   | ["submit"] => apply s .submit
   | ["complete"] => apply s .complete
   | ["clearfailed"] => apply s .clearFailed
+  | ["cancel"] => apply s .cancel
+  | ["drop"] => apply s .drop
+  | ["resetrunning"] => apply s .resetRunning
+  | "tleaf" :: p :: l :: c :: srcs =>
+    match parsePath p, l.toNat?, c.toNat?, srcs.mapM parseSrc with
+    | some p, some l, some c, some srcs =>
+      if pathOk p s.cur.kids && !hasKid l (kidsAt p s.cur.kids) then
+        (editTree s p true (fun ks => ks ++ [(l, .leaf c srcs)]), [])
+      else (s, ["bad-op"])
+    | _, _, _, _ => (s, ["bad-op"])
+  | "tcomp" :: p :: l :: r :: srcs =>
+    match parsePath p, l.toNat?, r.toNat?, srcs.mapM parseSrc with
+    | some p, some l, some r, some srcs =>
+      if pathOk p s.cur.kids && !hasKid l (kidsAt p s.cur.kids) then
+        (editTree s p true (fun ks => ks ++ [(l, .comp r srcs [])]), [])
+      else (s, ["bad-op"])
+    | _, _, _, _ => (s, ["bad-op"])
+  | ["tsetin", p, l, i, src] =>
+    match parsePath p, l.toNat?, i.toNat?, parseSrc src with
+    | some p, some l, some i, some src =>
+      if pathOk p s.cur.kids && hasKid l (kidsAt p s.cur.kids) then
+        (editTree s p false (PwVerif.CacheTree.mapKid l (T.setIn i src)), [])
+      else (s, ["bad-op"])
+    | _, _, _, _ => (s, ["bad-op"])
+  | ["tremove", p, l] =>
+    match parsePath p, l.toNat? with
+    | some p, some l =>
+      if pathOk p s.cur.kids && hasKid l (kidsAt p s.cur.kids) then
+        (editTree s p true (PwVerif.CacheTree.removeKid l), [])
+      else (s, ["bad-op"])
+    | _, _ => (s, ["bad-op"])
+  | ["treplace", p, l, c] =>
+    match parsePath p, l.toNat?, c.toNat? with
+    | some p, some l, some c =>
+      match PwVerif.CacheTree.lookup l (kidsAt p s.cur.kids) with
+      | some (.leaf _ ins) =>
+        if pathOk p s.cur.kids then
+          -- `replace_child` = remove + add: the replacement (same label, same IO) goes to the end of the dictionary
+          (editTree s p true (fun ks => PwVerif.CacheTree.removeKid l ks ++ [(l, .leaf c ins)]), [])
+        else (s, ["bad-op"])
+      | _ => (s, ["bad-op"])
+    | _, _, _ => (s, ["bad-op"])
+  | ["trun"] => treeRun s
   | _ => (s, ["bad-op"])
 
 def main : IO Unit := PwVerif.Proto.run DSt.init step'
